@@ -34,6 +34,7 @@ import (
 	"net/url"
 	"os"
 	"runtime"
+	"strconv"
 	"strings"
 	"sync"
 	"sync/atomic"
@@ -394,6 +395,7 @@ func c08Why(err error) string {
 // ------------------------------------------------------------------------------------ shared result
 
 var c08Res = kit.NewResult()
+var c08ResStress = kit.NewResult() // the two stress tests run in a process of their own
 
 func c08Quiet() {
 	log.SetOutput(io.Discard)
@@ -428,18 +430,155 @@ type c08Outcome struct {
 	Accepts  int      `json:"accepts"`
 	Cleans   int      `json:"cleans"`
 	Evicting int      `json:"evicting"` // clean-ups after which the cache holds fewer entries
-	Replays  int      `json:"replays"` // presentations of a block that had already been accepted, timestamp still in window
+	Replays  int      `json:"replays"`  // presentations of a block that had already been accepted, timestamp still in window
+	Early    int      `json:"early"`    // presentations started while the real sweep was parked mid-way
+	EarlyQ   int      `json:"early_queued"`
+	EarlyRan int      `json:"early_ran_during_sweep"` // ... that returned before the sweep was released (no exclusion)
 }
 
-// c08RunHistory steps one history through the real code in a fresh bubble.
-func c08RunHistory(t *testing.T, h *c08History, c c08Conc, transport string) (out c08Outcome) {
+// ---- scheduler gate without new hooks: the sweep calls sta.WorldState.Now() once per entry --------------
+
+func c08Goid() int64 {
+	var buf [64]byte
+	n := runtime.Stack(buf[:], false)
+	// "goroutine 123 [running]:"
+	f := bytes.Fields(buf[:n])
+	if len(f) < 2 {
+		return -1
+	}
+	id, _ := strconv.ParseInt(string(f[1]), 10, 64)
+	return id
+}
+
+// c08BlockedOnLock reports whether goroutine id is parked on a sync lock (it queues behind the sweep).
+func c08BlockedOnLock(id int64) bool {
+	buf := make([]byte, 1<<20)
+	n := runtime.Stack(buf, true)
+	hdr := []byte(fmt.Sprintf("goroutine %d [", id))
+	i := bytes.Index(buf[:n], hdr)
+	if i < 0 {
+		return false
+	}
+	rest := buf[i+len(hdr) : n]
+	j := bytes.IndexByte(rest, ']')
+	if j < 0 {
+		return false
+	}
+	state := string(rest[:j])
+	return strings.Contains(state, "sync.") || strings.Contains(state, "semacquire")
+}
+
+// real time inside a bubble (time.Now is virtual there): a goroutine outside any bubble counts 200 us steps
+var c08RealTicks atomic.Int64
+var c08RealTickerOnce sync.Once
+
+func c08StartRealTicker() {
+	c08RealTickerOnce.Do(func() {
+		go func() {
+			for {
+				time.Sleep(200 * time.Microsecond)
+				c08RealTicks.Add(1)
+			}
+		}()
+	})
+}
+
+// c08Sweeper gates one real UsedRandomCleaner goroutine at its Now() calls (one per cache entry, inside the
+// critical section of the sweep).
+type c08Sweeper struct {
+	goid    atomic.Int64
+	park    atomic.Bool // park at the next Now()
+	parked  atomic.Bool
+	release chan struct{}
+}
+
+type c08SweepGate struct {
+	mu       sync.Mutex
+	sweepers []*c08Sweeper
+}
+
+func (g *c08SweepGate) add(sw *c08Sweeper) {
+	g.mu.Lock()
+	g.sweepers = append(g.sweepers, sw)
+	g.mu.Unlock()
+}
+
+// now is installed as State.WorldState.Now
+func (g *c08SweepGate) now() time.Time {
+	id := c08Goid()
+	g.mu.Lock()
+	var me *c08Sweeper
+	for _, sw := range g.sweepers {
+		if sw.goid.Load() == id {
+			me = sw
+		}
+	}
+	g.mu.Unlock()
+	if me != nil && me.park.Load() {
+		me.parked.Store(true)
+		<-me.release
+		me.parked.Store(false)
+	}
+	return time.Now()
+}
+
+func (sw *c08Sweeper) step() { // lets the sweep decide one entry
+	if sw.parked.Load() {
+		sw.release <- struct{}{}
+	}
+}
+
+func (sw *c08Sweeper) finish() { // lets the sweep run to its end
+	sw.park.Store(false)
+	if sw.parked.Load() {
+		sw.release <- struct{}{}
+	}
+}
+
+func c08IsSweepStep(a string) bool {
+	return a == "CleanBegin" || a == "CleanVisit" || a == "CleanEnd" || a == "CleanSwap"
+}
+
+func c08HasSplit(h *c08History) bool {
+	for _, st := range h.Steps {
+		if c08IsSweepStep(st.A) {
+			return true
+		}
+	}
+	return false
+}
+
+// c08HasEarlySlot: some presentation directly follows the end of a sweep, so it can be made to arrive during it
+func c08HasEarlySlot(h *c08History) bool {
+	for i := 0; i+1 < len(h.Steps); i++ {
+		if (h.Steps[i].A == "Clean" || h.Steps[i].A == "CleanEnd") && h.Steps[i+1].A == "Present" {
+			return true
+		}
+	}
+	return false
+}
+
+// c08RunHistory steps one history through the real code in a fresh bubble.  early: a presentation that
+// directly follows the end of a sweep is started while the real sweep is parked at one of its Now() calls
+// (a foreign "ballast" random keeps the cache non-empty so that there is such a call), the sweep is then
+// released and the presentation completes; in the model that is the same history (a blocked presentation
+// has no effect until it gets the lock).  Histories with CleanBegin/CleanVisit/CleanEnd steps are always
+// run with the gate: every CleanVisit releases one decision of the real sweep at its model time.
+func c08RunHistory(t *testing.T, h *c08History, c c08Conc, transport string, early bool) (out c08Outcome) {
 	deviant := c08Deviant(h)
 	period := replayCacheAgeLimit
 	tol := timestampTolerance
+	gated := early || c08HasSplit(h)
+	internal := c.R == h.R && !c08HasSplit(h) // entry counts / error classes are compared (and only logged) when the
+	// model's sweep is one step: the real sweep visits the entries in map order, the model's CleanVisit steps in theirs
 	synctest.Test(t, func(t *testing.T) {
 		epoch := time.Now()
 		c08Epoch.Store(epoch.UnixNano())
+		gate := &c08SweepGate{}
 		sta := c08NewState(time.Now)
+		if gated {
+			sta.WorldState.Now = gate.now
+		}
 		m := epoch.Add(period + 10*time.Second) // model tick 0 (+ phase)
 		// absolute time of every step
 		times := make([]time.Time, len(h.Steps))
@@ -452,27 +591,182 @@ func c08RunHistory(t *testing.T, h *c08History, c c08Conc, transport string) (ou
 			ord++
 			times[i] = m.Add(c.Phase + time.Duration(tick)*c.Tick + time.Duration(ord)*c08StepEps)
 		}
-		// every Clean of the history is the first firing of a real cleaner goroutine started one period earlier
+		// every sweep of the history is the first firing of a real cleaner goroutine started one period earlier
+		sweeperAt := map[int]*c08Sweeper{}
 		for i, st := range h.Steps {
-			if st.A == "Clean" {
+			if st.A == "Clean" || st.A == "CleanBegin" {
 				startAt := times[i].Add(-period)
+				sw := &c08Sweeper{release: make(chan struct{})}
+				sw.park.Store(gated)
+				sweeperAt[i] = sw
+				gate.add(sw)
 				go func() {
+					sw.goid.Store(c08Goid())
 					time.Sleep(time.Until(startAt))
 					sta.UsedRandomCleaner()
 				}()
 			}
 		}
+		var ballast [32]byte
+		if gated {
+			rand.Read(ballast[:])
+			ballast[31] &= 0x7f
+		}
 		packets := map[int]*c08Packet{}
 		accepted := map[int]int{}
 		firstVariant := map[int]string{}
 		cleansSinceAccept := map[int]int{}
-		entries := func() int {
+		duringSweep := map[int]bool{}
+		entries := func() int { // entries of the model's blocks (the ballast is the driver's)
 			sta.usedRandomM.RLock()
 			defer sta.usedRandomM.RUnlock()
-			return len(sta.UsedRandom)
+			n := len(sta.UsedRandom)
+			if _, ok := sta.UsedRandom[ballast]; ok && gated {
+				n--
+			}
+			return n
 		}
 		lastEntries := 0
+		var cur *c08Sweeper // the sweep that is open (parked) right now
+		handled := map[int]bool{}
+		remSnap := map[int]bool{}
+
+		observe := func(i int, st c08Step, err error, at time.Duration, note string) {
+			p := packets[st.B]
+			why := c08Why(err)
+			now := time.Now()
+			inWin := time.Unix(p.ts, 0).After(now.Add(-tol)) && time.Unix(p.ts, 0).Before(now.Add(tol))
+			n := entries()
+			lastEntries = n
+			out.Table = append(out.Table, fmt.Sprintf("step %d t=%v Present(block %d, %s)%s: expected ok=%v (%s) observed ok=%v (%s) age=%v entries=%d (model %d)",
+				i, at, st.B, st.V, note, st.Ok, st.Why, err == nil, why, now.Sub(time.Unix(p.ts, 0)), n, st.Nc))
+			if accepted[st.B] > 0 && inWin {
+				out.Replays++
+			}
+			if !deviant {
+				if (err == nil) != st.Ok {
+					out.Mismatch++
+				}
+				if internal {
+					if why != st.Why {
+						out.WhyDiff++
+					}
+					if n != st.Nc {
+						out.NcDiff++
+					}
+				}
+			}
+			if err == nil {
+				accepted[st.B]++
+				out.Accepts++
+				if accepted[st.B] == 1 {
+					firstVariant[st.B] = st.V
+					cleansSinceAccept[st.B] = 0
+					duringSweep[st.B] = note != ""
+				}
+			}
+		}
+		// violation: the same sealed block authenticated a second time inside its window (THE PROPERTY)
+		verdict := func(st c08Step, remembered bool) {
+			p := packets[st.B]
+			now := time.Now()
+			inWin := time.Unix(p.ts, 0).After(now.Add(-tol)) && time.Unix(p.ts, 0).Before(now.Add(tol))
+			if accepted[st.B] < 2 || !inWin || out.Key != "" {
+				return
+			}
+			switch {
+			case duringSweep[st.B] && !remembered:
+				out.Key = "replay-during-cleanup"
+				out.What = fmt.Sprintf("a %s first packet that was accepted while a clean-up of the replay cache was in progress authenticated again %v after the client stamp (window %v): its random did not survive the sweep", transport, now.Sub(time.Unix(p.ts, 0)), tol)
+			case cleansSinceAccept[st.B] > 0 && !remembered:
+				out.Key = "replay-after-cleanup"
+				out.What = fmt.Sprintf("an accepted %s first packet (presented as %s, then as %s) authenticated again after a clean-up of the replay cache, %v after the client stamp (window %v)", transport, firstVariant[st.B], st.V, now.Sub(time.Unix(p.ts, 0)), tol)
+			case st.V != firstVariant[st.B]:
+				out.Key = "replay-altered-bit255"
+				out.What = fmt.Sprintf("a copy of an accepted %s first packet that differs in bit 255 of the random only (same sealed block) authenticated again %v after the client stamp while the accepted copy was still in the replay cache", transport, now.Sub(time.Unix(p.ts, 0)))
+			default:
+				out.Key = "replay-accepted"
+				out.What = fmt.Sprintf("an accepted %s first packet authenticated again %v after the client stamp", transport, now.Sub(time.Unix(p.ts, 0)))
+			}
+		}
+		// present step i while sweep sw is parked: start it, wait until it queues on the lock (or returns),
+		// let the sweep finish, collect the result
+		presentDuring := func(i int, sw *c08Sweeper, at time.Duration) {
+			st := h.Steps[i]
+			p := packets[st.B]
+			remembered := remSnap[st.B] // taken before the sweep: the lock cannot be touched while it is parked
+			done := make(chan error, 1)
+			var pid atomic.Int64
+			go func() {
+				pid.Store(c08Goid())
+				_, _, err := AuthFirstPacket(c08Variant(p, st.V), c08Transport(transport), sta)
+				done <- err
+			}()
+			out.Early++
+			var err error
+			finished, queued := false, false
+			deadline := c08RealTicks.Load() + 1500 // 300 ms of real time
+			for !finished && !queued && c08RealTicks.Load() < deadline {
+				select {
+				case err = <-done:
+					finished = true
+				default:
+					if id := pid.Load(); id != 0 && c08BlockedOnLock(id) {
+						queued = true
+					} else {
+						runtime.Gosched()
+					}
+				}
+			}
+			if queued {
+				out.EarlyQ++
+			}
+			if finished {
+				out.EarlyRan++
+			}
+			sw.finish()
+			if !finished {
+				err = <-done
+			}
+			synctest.Wait()
+			note := " [arrived during the sweep, queued]"
+			if finished {
+				note = " [arrived during the sweep, ran]"
+			}
+			observe(i, st, err, at, note)
+			verdict(st, remembered)
+			handled[i] = true
+		}
+		cleanObs := func(i int, st c08Step, at time.Duration, name string, compare bool) {
+			before := lastEntries
+			for b := range cleansSinceAccept {
+				cleansSinceAccept[b]++
+			}
+			n := entries()
+			out.Cleans++
+			if n < before {
+				out.Evicting++
+			}
+			lastEntries = n
+			if compare && internal && !deviant && n != st.Nc {
+				out.NcDiff++
+			}
+			out.Table = append(out.Table, fmt.Sprintf("step %d t=%v %s: entries %d -> %d (model %d)", i, at, name, before, n, st.Nc))
+		}
+		earlyNext := func(i int) bool {
+			return early && i+1 < len(h.Steps) && h.Steps[i+1].A == "Present"
+		}
+
 		for i, st := range h.Steps {
+			if handled[i] {
+				continue
+			}
+			if gated && (st.A == "Clean" || st.A == "CleanBegin") {
+				sta.registerRandom(ballast) // a foreign random, so that the sweep has an entry to decide about
+				for b, p := range packets {
+					remSnap[b] = accepted[b] > 0 && c08Remembered(sta, p, firstVariant[b])
+				}
+			}
 			time.Sleep(time.Until(times[i]))
 			at := time.Now().Sub(m)
 			switch st.A {
@@ -487,70 +781,63 @@ func c08RunHistory(t *testing.T, h *c08History, c c08Conc, transport string) (ou
 				packets[st.B] = p
 				out.Table = append(out.Table, fmt.Sprintf("step %d t=%v Issue(block %d, skew %d ticks): client stamp %d", i, at, st.B, st.K, p.ts))
 			case "Clean":
-				before := lastEntries
-				synctest.Wait() // the cleaner goroutine whose timer fires now has finished its iteration
-				for b := range cleansSinceAccept {
-					cleansSinceAccept[b]++
+				sw := sweeperAt[i]
+				synctest.Wait() // the cleaner whose timer fires now has finished its iteration, or is parked in it
+				if gated {
+					if earlyNext(i) && sw.parked.Load() {
+						out.Table = append(out.Table, fmt.Sprintf("step %d t=%v Clean: the real sweep is parked at one of its decisions", i, at))
+						time.Sleep(time.Until(times[i+1]))
+						presentDuring(i+1, sw, time.Now().Sub(m))
+						cleanObs(i, st, at, "Clean (released after the presentation had arrived)", false)
+						continue
+					}
+					sw.finish()
+					synctest.Wait()
 				}
-				n := entries()
-				out.Cleans++
-				if n < before {
-					out.Evicting++
+				cleanObs(i, st, at, "Clean", true)
+			case "CleanBegin":
+				cur = sweeperAt[i]
+				synctest.Wait() // parked at its first decision (or through, if the cache was empty)
+				out.Table = append(out.Table, fmt.Sprintf("step %d t=%v CleanBegin: sweep parked=%v", i, at, cur.parked.Load()))
+			case "CleanVisit":
+				if cur != nil {
+					cur.step()
+					synctest.Wait()
 				}
-				lastEntries = n
-				if c.R == h.R && !deviant && n != st.Nc {
-					out.NcDiff++
+				out.Table = append(out.Table, fmt.Sprintf("step %d t=%v CleanVisit: one decision of the real sweep released (model entries %d)", i, at, st.Nc))
+			case "CleanEnd":
+				if cur != nil {
+					if earlyNext(i) && cur.parked.Load() {
+						sw := cur
+						cur = nil
+						time.Sleep(time.Until(times[i+1]))
+						presentDuring(i+1, sw, time.Now().Sub(m))
+						cleanObs(i, st, at, "CleanEnd (released after the presentation had arrived)", false)
+						continue
+					}
+					cur.finish()
+					synctest.Wait()
+					cur = nil
 				}
-				out.Table = append(out.Table, fmt.Sprintf("step %d t=%v Clean: entries %d -> %d (model %d)", i, at, before, n, st.Nc))
+				cleanObs(i, st, at, "CleanEnd", true)
+			case "CleanSwap":
+				continue // not observable on its own: the real sweep ran to its end at CleanEnd
 			case "Present":
+				if cur != nil && cur.parked.Load() { // a presentation while the sweep is open: it has to queue
+					sw := cur
+					cur = nil
+					presentDuring(i, sw, at)
+					continue
+				}
 				p := packets[st.B]
 				remembered := accepted[st.B] > 0 && c08Remembered(sta, p, firstVariant[st.B]) // names the class of a violation, never decides
 				_, _, err := AuthFirstPacket(c08Variant(p, st.V), c08Transport(transport), sta)
-				why := c08Why(err)
-				now := time.Now()
-				inWin := time.Unix(p.ts, 0).After(now.Add(-tol)) && time.Unix(p.ts, 0).Before(now.Add(tol))
-				n := entries()
-				lastEntries = n
-				out.Table = append(out.Table, fmt.Sprintf("step %d t=%v Present(block %d, %s): expected ok=%v (%s) observed ok=%v (%s) age=%v entries=%d (model %d)",
-					i, at, st.B, st.V, st.Ok, st.Why, err == nil, why, now.Sub(time.Unix(p.ts, 0)), n, st.Nc))
-				if accepted[st.B] > 0 && inWin {
-					out.Replays++
-				}
-				if !deviant {
-					if (err == nil) != st.Ok {
-						out.Mismatch++
-					}
-					if c.R == h.R {
-						if why != st.Why {
-							out.WhyDiff++
-						}
-						if n != st.Nc {
-							out.NcDiff++
-						}
-					}
-				}
-				if err == nil {
-					accepted[st.B]++
-					out.Accepts++
-					if accepted[st.B] == 1 {
-						firstVariant[st.B] = st.V
-						cleansSinceAccept[st.B] = 0
-					} else if inWin && out.Key == "" {
-						// THE PROPERTY: the same sealed block authenticated a second time inside its window
-						switch {
-						case cleansSinceAccept[st.B] > 0 && !remembered:
-							out.Key = "replay-after-cleanup"
-							out.What = fmt.Sprintf("an accepted %s first packet (presented as %s, then as %s) authenticated again after a clean-up of the replay cache, %v after the client stamp (window %v)", transport, firstVariant[st.B], st.V, now.Sub(time.Unix(p.ts, 0)), tol)
-						case st.V != firstVariant[st.B]:
-							out.Key = "replay-altered-bit255"
-							out.What = fmt.Sprintf("a copy of an accepted %s first packet that differs in bit 255 of the random only (same sealed block) authenticated again %v after the client stamp while the accepted copy was still in the replay cache", transport, now.Sub(time.Unix(p.ts, 0)))
-						default:
-							out.Key = "replay-accepted"
-							out.What = fmt.Sprintf("an accepted %s first packet authenticated again %v after the client stamp", transport, now.Sub(time.Unix(p.ts, 0)))
-						}
-					}
-				}
+				observe(i, st, err, at, "")
+				verdict(st, remembered)
 			}
+		}
+		for _, sw := range sweeperAt {
+			sw.finish()
 		}
 		// let every cleaner reach its second firing, where the hook retires it
 		time.Sleep(time.Until(epoch.Add(2*period + 2*time.Hour)))
@@ -582,7 +869,7 @@ func c08Nontrivial(h *c08History) bool {
 func c08Sig(h *c08History) string {
 	var sb strings.Builder
 	for _, st := range h.Steps {
-		fmt.Fprintf(&sb, "%s%d%s%d;", st.A[:1], st.B, st.V, st.K)
+		fmt.Fprintf(&sb, "%s%d%s%d;", st.A, st.B, st.V, st.K)
 	}
 	return sb.String()
 }
@@ -596,6 +883,7 @@ func TestVerifC08Replay(t *testing.T) {
 	}
 	c08InstallCleanerExit()
 	defer verifhook.Set(nil)
+	c08StartRealTicker()
 	concs := c08Concretisations(res)
 	if len(concs) == 0 {
 		t.Fatal("no concretisation of the tick model fits the constants of the code under test")
@@ -642,13 +930,27 @@ func TestVerifC08Replay(t *testing.T) {
 		if (c08Deviant(&h) && !strings.HasSuffix(h.Src, "_2p")) || n > len(concs) {
 			n = len(concs) // counter-examples of the deviating models (one-block sets): every concretisation
 		}
-		for k := 0; k < n; k++ {
+		split, slot := c08HasSplit(&h), c08HasEarlySlot(&h)
+		runs := n
+		if split {
+			runs = (n + 1) / 2 // every run of such a history drives the real sweep decision by decision
+		} else if slot && (kit.Thorough() || j.idx%2 == 0 || c08Deviant(&h)) {
+			runs = n + 1 // one more run in which the presentation after a clean-up ARRIVES during the sweep
+		}
+		for k := 0; k < runs; k++ {
 			c := concs[(j.idx*perHist+k)%len(concs)]
-			if n == len(concs) {
+			if n == len(concs) && k < n {
 				c = concs[k]
 			}
+			early := slot && ((split && (j.idx+k)%2 == 0) || (!split && k == n))
 			tr := transports[(j.idx+k)%2]
-			o := c08RunHistory(t, &h, c, tr)
+			o := c08RunHistory(t, &h, c, tr, early)
+			if early {
+				res.Stat("early_runs", 1)
+			}
+			res.Stat("early_presentations", int64(o.Early))
+			res.Stat("early_queued_on_lock", int64(o.EarlyQ))
+			res.Stat("early_ran_during_sweep", int64(o.EarlyRan))
 			res.Count(c08Sig(&h), c08Nontrivial(&h))
 			res.Stat("presentations", int64(c08CountPresent(&h)))
 			res.Stat("replay_attempts_in_window", int64(o.Replays))
@@ -668,7 +970,7 @@ func TestVerifC08Replay(t *testing.T) {
 				}
 			}
 			if o.Key != "" {
-				res.Violate(o.Key, o.What, map[string]any{"kind": "history", "history": h, "conc": c, "transport": tr, "table": o.Table})
+				res.Violate(o.Key, o.What, map[string]any{"kind": "history", "history": h, "conc": c, "transport": tr, "early": early, "table": o.Table})
 			} else if o.Mismatch > 0 && mismatchSamples.Add(1) <= 3 {
 				res.Note("model/code disagreement (no verdict) on %s under %s/%s: %s", c08Sig(&h), c.Name, tr, strings.Join(o.Table, " | "))
 			}
@@ -721,6 +1023,7 @@ func c08ReplayFile(t *testing.T, path string, concs []c08Conc) {
 			History   c08History `json:"history"`
 			Conc      c08Conc    `json:"conc"`
 			Transport string     `json:"transport"`
+			Early     bool       `json:"early"`
 		} `json:"replay"`
 	}
 	raw, err := os.ReadFile(path)
@@ -742,7 +1045,7 @@ func c08ReplayFile(t *testing.T, path string, concs []c08Conc) {
 	if tr == "" {
 		tr = "TLS"
 	}
-	o := c08RunHistory(t, &rf.Replay.History, c, tr)
+	o := c08RunHistory(t, &rf.Replay.History, c, tr, rf.Replay.Early)
 	for _, l := range o.Table {
 		fmt.Println(l)
 	}
@@ -867,102 +1170,160 @@ func TestVerifC08Gate(t *testing.T) {
 	if !verifhook.Enabled {
 		t.Fatal("built without -tags verif")
 	}
-	rounds := 6
+	reps := 1
 	grace := 60 * time.Millisecond
 	if kit.Thorough() {
-		rounds = 40
+		reps = 4
 		grace = 150 * time.Millisecond
 	}
 	defer verifhook.Set(nil)
-	for round := 0; round < rounds; round++ {
-		tr := []string{"TLS", "WebSocket"}[round%2]
-		variantB := []string{"same", "bit255"}[(round/2)%2]
-		p, err := c08MakePacket(tr, time.Now)
+	// Schedule points of a presentation: every verifhook point and every State.WorldState.Now() call it passes.
+	// Presenter A is parked at its k-th point, for every k; presenter B then presents the same sealed block.
+	var aGoid atomic.Int64
+	var aCount, target atomic.Int32
+	var parked, release chan struct{}
+	second := make(chan struct{}, 64)
+	var names []string
+	var namesMu sync.Mutex
+	point := func(name string) {
+		if c08Goid() == aGoid.Load() {
+			k := aCount.Add(1)
+			if target.Load() == 0 {
+				namesMu.Lock()
+				names = append(names, name)
+				namesMu.Unlock()
+			}
+			if k == target.Load() {
+				close(parked)
+				<-release
+			}
+			return
+		}
+		if aGoid.Load() != 0 {
+			select {
+			case second <- struct{}{}:
+			default:
+			}
+		}
+	}
+	verifhook.Set(func(p string, args ...uint64) { point("hook:" + p) })
+	gatedNow := func() time.Time { point("now"); return time.Now() }
+	runA := func(sta *State, raw []byte, tr string, errc chan error) {
+		go func() {
+			aCount.Store(0)
+			aGoid.Store(c08Goid())
+			_, _, err := AuthFirstPacket(raw, c08Transport(tr), sta)
+			aGoid.Store(0)
+			errc <- err
+		}()
+	}
+	// dry run: which points does a presentation pass?
+	{
+		p, err := c08MakePacket("TLS", time.Now)
 		if err != nil {
 			t.Fatal(err)
 		}
-		sta := c08NewState(time.Now)
-		var arrivals atomic.Int32
-		parked := make(chan struct{})
-		second := make(chan struct{}, 8)
-		release := make(chan struct{})
-		verifhook.Set(func(point string, args ...uint64) {
-			if point != "state.random.checked" {
-				return
-			}
-			if arrivals.Add(1) == 1 {
-				close(parked)
-				<-release // the first presenter stays between the test and the set
-			} else {
-				second <- struct{}{}
-			}
-		})
-		errA := make(chan error, 1)
-		errB := make(chan error, 1)
-		go func() {
-			_, _, err := AuthFirstPacket(p.raw, c08Transport(tr), sta)
-			errA <- err
-		}()
-		select {
-		case <-parked:
-		case <-time.After(10 * time.Second):
-			t.Fatal("hook point state.random.checked was never reached")
+		target.Store(0)
+		errc := make(chan error, 1)
+		runA(c08NewState(gatedNow), p.raw, "TLS", errc)
+		if err := <-errc; err != nil {
+			t.Fatalf("dry run refused: %v", err)
 		}
-		go func() {
-			_, _, err := AuthFirstPacket(c08Variant(p, variantB), c08Transport(tr), sta)
-			errB <- err
-		}()
-		var eB error
-		bDone, bPassed := false, false
-		select {
-		case <-second:
-			bPassed = true // the second presenter ran its test while the first was between test and set
-		case eB = <-errB:
-			bDone = true
-		case <-time.After(grace):
-		}
-		close(release)
-		eA := <-errA
-		if !bDone {
-			select {
-			case eB = <-errB:
-			case <-time.After(10 * time.Second):
-				t.Fatal("second presenter never returned")
-			}
-		}
-		res.Count(fmt.Sprintf("gate/%s/%s", tr, variantB), true)
-		if bPassed || bDone {
-			res.Stat("gate_second_passed_while_first_parked", 1)
-		} else {
-			res.Stat("gate_held", 1)
-		}
-		if eA == nil && eB == nil {
-			overlapped := bPassed || bDone
-			switch {
-			case overlapped:
-				res.Violate("replay-concurrent", fmt.Sprintf("two overlapping presentations of one %s first packet (second copy: %s) both authenticated: the second ran its test while the first was parked between test and set, so the two are not one critical section", tr, variantB),
-					map[string]any{"kind": "gate", "transport": tr, "variant": variantB, "second_passed_while_first_parked": true})
-			case variantB != "same":
-				res.Violate("replay-altered-bit255", fmt.Sprintf("two presentations of one %s sealed block, the second with bit 255 of the random flipped, both authenticated (the second waited for the first to leave the critical section)", tr),
-					map[string]any{"kind": "gate", "transport": tr, "variant": variantB, "second_passed_while_first_parked": false})
-			default:
-				res.Violate("replay-accepted", fmt.Sprintf("two presentations of one %s first packet both authenticated although the second waited for the first to leave the critical section", tr),
-					map[string]any{"kind": "gate", "transport": tr, "variant": variantB, "second_passed_while_first_parked": false})
-			}
-		}
-		if eA != nil && eB != nil {
-			res.Note("gate round %d: both presenters refused (%v / %v)", round, eA, eB)
-			res.Stat("gate_both_refused", 1)
-		}
-		verifhook.Set(nil)
 	}
+	nPoints := len(names)
+	res.Note("schedule points of one presentation: %v", names)
+	if nPoints == 0 {
+		t.Fatal("a presentation passes no schedule point")
+	}
+	round := 0
+	for rep := 0; rep < reps; rep++ {
+		for k := 1; k <= nPoints; k++ {
+			for _, tr := range []string{"TLS", "WebSocket"} {
+				for _, variantB := range []string{"same", "bit255"} {
+					round++
+					p, err := c08MakePacket(tr, time.Now)
+					if err != nil {
+						t.Fatal(err)
+					}
+					sta := c08NewState(gatedNow)
+					parked, release = make(chan struct{}), make(chan struct{})
+					for len(second) > 0 {
+						<-second
+					}
+					target.Store(int32(k))
+					errA := make(chan error, 1)
+					errB := make(chan error, 1)
+					runA(sta, p.raw, tr, errA)
+					var eA, eB error
+					aDone := false
+					select {
+					case <-parked:
+					case eA = <-errA:
+						aDone = true // fewer points on this path (refused early): nothing to park
+					case <-time.After(10 * time.Second):
+						t.Fatalf("schedule point %d (%s) was never reached", k, names[k-1])
+					}
+					go func() {
+						_, _, err := AuthFirstPacket(c08Variant(p, variantB), c08Transport(tr), sta)
+						errB <- err
+					}()
+					bDone, bPassed := false, false
+					select {
+					case eB = <-errB:
+						bDone = true
+					case <-time.After(grace):
+					}
+					if len(second) > 0 {
+						bPassed = true // B went through a schedule point while A was parked
+					}
+					close(release)
+					if !aDone {
+						eA = <-errA
+					}
+					if !bDone {
+						select {
+						case eB = <-errB:
+						case <-time.After(10 * time.Second):
+							t.Fatal("second presenter never returned")
+						}
+					}
+					target.Store(-1)
+					res.Count(fmt.Sprintf("gate/%s/%s/%d", tr, variantB, k), true)
+					if bDone {
+						res.Stat("gate_second_returned_while_first_parked", 1)
+					} else {
+						res.Stat("gate_second_waited", 1)
+					}
+					if eA == nil && eB == nil {
+						where := names[k-1]
+						overlapped := bDone || bPassed
+						replay := map[string]any{"kind": "gate", "transport": tr, "variant": variantB, "parked_at": where, "point": k, "second_ran_while_first_parked": overlapped}
+						switch {
+						case overlapped:
+							res.Violate("replay-concurrent", fmt.Sprintf("two overlapping presentations of one %s first packet (second copy: %s) both authenticated: the second ran while the first was parked at its schedule point %d (%s), so test and set of the replay cache are not one critical section", tr, variantB, k, where), replay)
+						case variantB != "same":
+							res.Violate("replay-altered-bit255", fmt.Sprintf("two presentations of one %s sealed block, the second with bit 255 of the random flipped, both authenticated (the second waited for the first to leave the critical section)", tr), replay)
+						default:
+							res.Violate("replay-accepted", fmt.Sprintf("two presentations of one %s first packet both authenticated although the second waited for the first", tr), replay)
+						}
+					}
+					if eA != nil && eB != nil {
+						res.Note("gate round %d: both presenters refused (%v / %v)", round, eA, eB)
+						res.Stat("gate_both_refused", 1)
+					}
+				}
+			}
+		}
+	}
+	res.Stat("gate_rounds", int64(round))
+	res.Stat("gate_points", int64(nPoints))
 }
 
 // -------------------------------------------------------------------------------------- B2: stress
 
 func TestVerifC08Stress(t *testing.T) {
 	c08Quiet()
-	res := kit.NewResult() // own result: this test may take the process down on a broken tree
+	res := c08ResStress // own result: this test may take the process down on a broken tree
 	defer func() { res.Save(true) }()
 	rounds := kit.EnvInt("VERIF_C08_ROUNDS", 120)
 	if kit.Thorough() {
@@ -1044,4 +1405,108 @@ func TestVerifC08Stress(t *testing.T) {
 		}
 	}
 	res.Sample(map[string]any{"kind": "stress", "n": []int{2, 8, 64}, "rounds_each": rounds}, 1)
+}
+
+// TestVerifC08SweepStress: N simultaneous presentations of one packet x the real UsedRandomCleaner sweeping at
+// the same instant.  One bubble; the cleaner loops on the virtual clock, every round sits on one of its
+// firings: the presenters sleep until exactly that instant, so that they and the sweep wake together and run
+// in real parallel (the clock only moves on when all of them are done).  A few thousand fresh foreign randoms
+// make the sweep long enough to overlap.  Per packet exactly one presentation may authenticate, including a
+// follow-up presentation 30 s later (still inside the window).
+func TestVerifC08SweepStress(t *testing.T) {
+	c08Quiet()
+	res := c08ResStress
+	defer func() { res.Save(true) }()
+	if !verifhook.Enabled {
+		t.Fatal("built without -tags verif")
+	}
+	rounds := kit.EnvInt("VERIF_C08_SWEEP_ROUNDS", 40)
+	foreign := 3000
+	if kit.Thorough() {
+		rounds = kit.EnvInt("VERIF_C08_SWEEP_ROUNDS", 400)
+	}
+	res.SetRunning(map[string]any{"kind": "sweepstress"}, true)
+	var over, perturb atomic.Bool
+	verifhook.Set(func(point string, args ...uint64) {
+		switch point {
+		case "state.cleaner.tick":
+			if over.Load() {
+				runtime.Goexit()
+			}
+		case "state.random.checked":
+			if perturb.Load() {
+				runtime.Gosched()
+				runtime.Gosched()
+			}
+		}
+	})
+	defer verifhook.Set(nil)
+	rng := kit.NewRng(kit.Seed() + 8080)
+	period := replayCacheAgeLimit
+	synctest.Test(t, func(t *testing.T) {
+		epoch := time.Now()
+		now := func() time.Time { // every clock read of the code is a yield point in the perturbed rounds
+			if perturb.Load() {
+				runtime.Gosched()
+			}
+			return time.Now()
+		}
+		sta := c08NewState(now)
+		go sta.UsedRandomCleaner() // fires at epoch + k * period
+		k := 0
+		for _, n := range []int{2, 8, 64} {
+			for round := 0; round < rounds && res.NumViolations() < 5; round++ {
+				k++
+				fire := epoch.Add(time.Duration(k) * period)
+				time.Sleep(time.Until(fire.Add(-5 * time.Second)))
+				tr := []string{"TLS", "WebSocket"}[round%2]
+				perturb.Store(round%4 >= 2)
+				sta.usedRandomM.Lock()
+				stamp := time.Now().Unix()
+				for j := 0; j < foreign; j++ {
+					var key [32]byte
+					copy(key[:], rng.Bytes(32))
+					sta.UsedRandom[key] = stamp
+				}
+				sta.usedRandomM.Unlock()
+				p, err := c08MakePacket(tr, time.Now)
+				if err != nil {
+					t.Fatal(err)
+				}
+				var wg sync.WaitGroup
+				var simultaneous atomic.Int32
+				for g := 0; g < n; g++ {
+					wg.Add(1)
+					go func() {
+						defer wg.Done()
+						time.Sleep(time.Until(fire)) // wakes together with the cleaner
+						if _, _, err := AuthFirstPacket(p.raw, c08Transport(tr), sta); err == nil {
+							simultaneous.Add(1)
+						}
+					}()
+				}
+				wg.Wait()
+				time.Sleep(30 * time.Second)
+				_, _, errLater := AuthFirstPacket(p.raw, c08Transport(tr), sta)
+				res.Count(fmt.Sprintf("sweepstress/%d/%s/%v", n, tr, perturb.Load()), true)
+				res.Stat(fmt.Sprintf("sweepstress_rounds_n%d", n), 1)
+				if simultaneous.Load() == 0 {
+					res.Stat("sweepstress_nobody_accepted", 1)
+				}
+				replay := map[string]any{"kind": "sweepstress", "n": n, "transport": tr, "yield_at_clock_reads": perturb.Load(),
+					"accepted_at_the_sweep": simultaneous.Load(), "accepted_30s_later": errLater == nil}
+				switch {
+				case simultaneous.Load() > 1:
+					res.Violate("replay-concurrent", fmt.Sprintf("%d of %d presentations of one %s first packet made at the instant of a clean-up authenticated", simultaneous.Load(), n, tr), replay)
+				case simultaneous.Load() == 1 && errLater == nil:
+					res.Violate("replay-during-cleanup", fmt.Sprintf("a %s first packet accepted at the instant of a clean-up of the replay cache authenticated again 30 s later: its random did not survive the sweep", tr), replay)
+				}
+			}
+		}
+		perturb.Store(false)
+		over.Store(true)
+		time.Sleep(period + time.Hour) // the cleaner's next firing retires it
+		synctest.Wait()
+	})
+	res.Sample(map[string]any{"kind": "sweepstress", "n": []int{2, 8, 64}, "rounds_each": rounds, "foreign_randoms": foreign}, 2)
 }
